@@ -23,7 +23,7 @@ LEVEL_TEXT = ('Bounded-exhaustive model checking over the schedule dimension: ev
 LEVEL_NOTE = 'Trusted: list equality of items; the frame() output is taken from the real code.'
 TECHNIQUE = 'stateless bounded-exhaustive exploration of all chunk schedules against the identity round-trip'
 
-LINE_ALPHA = ['', 'a', 'bc', '\x02\x00\x00\x00ab']
+LINE_ALPHA = ['', 'a', 'bc', '\x02\x00\x00\x00ab', 'c\r', '\r']
 LP_ALPHA = [b'', b'a', b'bc', b'x\ny']
 
 
@@ -33,7 +33,8 @@ def bounds(tier):
 
 def units(tier):
     L = 3 if tier == 'quick' else 4
-    out = [{'fam': 'line', 'L': L, 'shard': [i, 4]} for i in range(4)]
+    out = [{'fam': 'line', 'L': L, 'shard': [i, 12]} for i in range(12)]
+    out.append({'fam': 'lpmax'})
     for size in (1, 2, 4, 8):
         for order in ('little', 'big'):
             for sh in range(4):
@@ -42,6 +43,12 @@ def units(tier):
 
 
 def cases(unit):
+    if unit['fam'] == 'lpmax':
+        # the longest payload a prefix can announce (and its neighbours)
+        for size, n in ((1, 254), (1, 255), (2, 65534), (2, 65535)):
+            for order in ('little', 'big'):
+                yield {'fam': 'lpmax', 'size': size, 'order': order, 'n': n}
+        return
     if unit['fam'] == 'line':
         sh, n = unit['shard']
         for i, items in enumerate(spaces.sequences(LINE_ALPHA, unit['L'])):
@@ -85,6 +92,23 @@ def run_case(case, acc):
         acc.outcomes.add(fast_hash(repr(want)))
         return out
     size, order = case['size'], case['order']
+    if case['fam'] == 'lpmax':
+        items = [b'a', bytes(range(256)) * (case['n'] // 256) + bytes(range(case['n'] % 256)), b'z']
+        fs = run([lp.frame(size, order)], items)
+        acc.evals += 1
+        if fs.error is not None or fs.completed != 1:
+            return [viol('length_prefix', 'frame-rejects-the-longest-encodable-item', {'prefix': [size, order], 'length': case['n'], 'error': repr(fs.error)})]
+        framed = b''.join(fs.items)
+        for cuts in [(), (1,), (size,), (size + 1,), (len(framed) - 1,), (size + 2, len(framed) - 2)]:
+            sink = run([lp.unframe(size, order)], spaces.chunk(framed, cuts))
+            acc.evals += 1
+            acc.traces += 1
+            if sink.error is not None or sink.items != items:
+                return [viol('length_prefix', 'longest-encodable-item-differs', {'prefix': [size, order], 'length': case['n'], 'cuts': list(cuts),
+                                                                             'observed_lengths': [len(x) for x in sink.items], 'error': repr(sink.error)})]
+        acc.count('max_length_items')
+        acc.nontrivial.add(fast_hash(('lpmax', size, order, case['n'])))
+        return []
     items = [LP_ALPHA[i] for i in case['items']]
     framed = b''.join(run([lp.frame(size, order)], items).items)
     ops = lambda: [lp.unframe(size, order)]
